@@ -30,7 +30,7 @@ TraceLog == ndJsonDeserialize(IOEnv.TRACE)
 
 NoPass == [seg |-> 0, pc |-> 0, ifasm |-> 0, cpu |-> 0, set |-> FALSE]
 NoLast == [rec |-> 0, std |-> 0, sed |-> 0]
-DefaultOpts == [werror |-> FALSE, maxerr |-> 0, suppw |-> FALSE, codeout |-> TRUE]
+DefaultOpts == [werror |-> FALSE, maxerr |-> 0, suppw |-> FALSE, codeout |-> TRUE, throw |-> FALSE]
 
 TInit == /\ l = 1 /\ ph = "idle" /\ o = DefaultOpts /\ d = InitD /\ glob = FALSE /\ keptq = <<>> /\ cur = 0
          /\ pass1 = NoPass /\ lastpe = [repass |-> FALSE, ifd |-> 0] /\ resid = NoResidue /\ lastst = NoLast
@@ -43,7 +43,7 @@ Reset == /\ ph' = "idle" /\ o' = DefaultOpts /\ d' = InitD /\ glob' = FALSE /\ k
          /\ prevdiag' = FALSE
 
 Run(e) == /\ ph = "idle" /\ ph' = "run"
-          /\ o' = [werror |-> e.werror, maxerr |-> e.maxerr, suppw |-> e.suppw, codeout |-> TRUE]
+          /\ o' = [werror |-> e.werror, maxerr |-> e.maxerr, suppw |-> e.suppw, codeout |-> TRUE, throw |-> FALSE]
           /\ prevdiag' = FALSE
           /\ UNCHANGED <<d, glob, keptq, cur, pass1, lastpe, resid, lastst>>
 
